@@ -185,7 +185,7 @@ def py_type_id(v):
         is_float(v), z3.IntVal(T_FLOAT), z3.If(is_str(v), z3.IntVal(T_STR), z3.If(is_list(v), z3.IntVal(T_LIST), z3.If(
             is_tuple(v), z3.IntVal(T_TUPLE), z3.If(is_dict(v), z3.IntVal(T_DICT), z3.If(is_set(v), z3.IntVal(T_SET), z3.If(
                 is_range(v), z3.IntVal(T_RANGE), z3.If(is_type(v), z3.IntVal(T_TYPE), z3.If(
-                    is_obj(v), Val.cls(v), z3.IntVal(0)))))))))))))
+                    is_obj(v), z3.If(Val.cls(v) >= 1000, Val.cls(v), z3.IntVal(-1)), z3.IntVal(0)))))))))))))   # class ids start at 1000
 
 
 def hashable(v):
